@@ -366,6 +366,7 @@ def history_free(ctx: Ctx, prop: str):
                         ctx.finding("HISTORY-FREE", f, s, f"`{nm}` comes from the {taken[nm]} and is modified in place by {what}: the shared object is changed, so the next call that hits the same entry starts from the modified value", construct=f"{f.name}: in-place edit of cached `{nm}`")
     res.instance("HISTORY-FREE", f"{prop}: functions of the anchored modules examined", sample={"functions": n_funcs, "modules": files})
     mask_argmax(ctx, prop, files)
+    sentinel_intact(ctx, prop, files)
     if n_funcs == 0:
         raise AnalysisError("HISTORY-FREE: no function of the anchored modules was examined")
 
@@ -415,3 +416,158 @@ def mask_argmax(ctx: Ctx, prop: str, files):
                 if not tested:
                     ctx.finding("MASK-ARGMAX", f, c, f"`{src(c)[:80]}` takes the position of the first True of the mask `{src(full)[:70]}`; when no entry is True the result is 0, exactly as when the first entry is: used as a count / bound it then keeps nothing (or the wrong element) in the case where every entry passes. Count the entries (sum / len) or test any() first", construct=f"{f.name}: argmax of a mask {src(full)[:50]}")
     res.instance("MASK-ARGMAX", f"{prop}: argmax / argmin calls examined", sample={"calls": n_calls, "over_masks": n_masks})
+
+
+# ---------------------------------------------------------------------------------
+# SENTINEL-INTACT: a parameter that may be a string sentinel is not turned into a collection of characters
+# ---------------------------------------------------------------------------------
+_CONVERTERS = {"set", "list", "tuple", "sorted", "frozenset"}
+
+
+def _sentinel_params(repo):
+    """(function qname, parameter) -> set of string literals the parameter is compared with, directly or in a
+    function it is handed to (by position or keyword), to a fixed point"""
+    from ..model import bind_call
+
+    cache = repo.__dict__.get("_sentinel_params")
+    if cache is not None:
+        return cache
+    out = {}
+    funcs = list(repo.functions.values())
+    for f in funcs:
+        params = set(f.all_params)
+        for c in own_scope_nodes(f.node):
+            if isinstance(c, ast.Compare) and len(c.ops) == 1 and isinstance(c.ops[0], (ast.Eq, ast.NotEq)):
+                l, r = c.left, c.comparators[0]
+                for a, b in ((l, r), (r, l)):
+                    if isinstance(a, ast.Name) and a.id in params and isinstance(b, ast.Constant) and isinstance(b.value, str) and b.value:
+                        out.setdefault((f.qname, a.id), set()).add(b.value)
+    changed = True
+    rounds = 0
+    while changed and rounds < 4:
+        changed = False
+        rounds += 1
+        for f in funcs:
+            params = set(f.all_params)
+            for c in own_scope_nodes(f.node):
+                if not isinstance(c, ast.Call):
+                    continue
+                try:
+                    ct = repo.resolve_call(f, f.module, c)
+                except Exception:
+                    continue
+                if ct.kind != "repo" or not ct.funcs:
+                    continue
+                for g in ct.funcs[:3]:
+                    b = bind_call(c, g, ct.bound)
+                    if not b.ok:
+                        continue
+                    for q, a in b.params.items():
+                        if isinstance(a, ast.Name) and a.id in params and (g.qname, q) in out:
+                            cur = out.setdefault((f.qname, a.id), set())
+                            if not out[(g.qname, q)] <= cur:
+                                cur |= out[(g.qname, q)]
+                                changed = True
+    repo.__dict__["_sentinel_params"] = out
+    return out
+
+
+def sentinel_intact(ctx: Ctx, prop: str, files):
+    repo, res = ctx.repo, ctx.res
+    res.rule("SENTINEL-INTACT", "a parameter that is compared with a string sentinel (here or in a routine it is handed to, e.g. nn_modes == \"all\") is not passed through set / list / tuple / sorted while it can still be that string: the string would become a collection of its characters and the comparison downstream silently fails", floor=1)
+    sent = _sentinel_params(repo)
+    n = 0
+    for rel in files:
+        mod = next((m for m in repo.modules.values() if m.rel == rel), None)
+        if mod is None:
+            continue
+        for f in [g for g in repo.functions.values() if g.module is mod]:
+            mine = {p_: v for (q, p_), v in sent.items() if q == f.qname}
+            if not mine:
+                continue
+            par = {}
+            for a in ast.walk(f.node):
+                for c_ in ast.iter_child_nodes(a):
+                    par[id(c_)] = a
+            for p_, strings in sorted(mine.items()):
+                n += 1
+                res.instance("SENTINEL-INTACT", f"{f.qname}({p_})", sample={"sentinels": sorted(strings)})
+                for st in own_scope_nodes(f.node):
+                    if not (isinstance(st, ast.Assign) and len(st.targets) == 1 and is_name(st.targets[0], p_) and isinstance(st.value, ast.Call) and (call_name(st.value) or "") in _CONVERTERS and len(st.value.args) == 1 and is_name(st.value.args[0], p_)):
+                        continue
+
+                    # the value converted is still the parameter (no earlier statement re-bound it, e.g. to the
+                    # result of the validator that resolves the sentinel) ...
+                    if not is_name(_resolve_at(ast.Name(id=p_, ctx=ast.Load()), st, f.node, depth=1), p_):
+                        continue
+                    # ... and it is still compared with the sentinel / handed to a routine that does, afterwards
+                    later = False
+                    for c2 in own_scope_nodes(f.node):
+                        if getattr(c2, "lineno", 0) <= st.lineno:
+                            continue
+                        if isinstance(c2, ast.Compare) and len(c2.ops) == 1 and any(is_name(x, p_) for x in [c2.left] + c2.comparators) and any(isinstance(x, ast.Constant) and isinstance(x.value, str) for x in [c2.left] + c2.comparators):
+                            later = True
+                        if isinstance(c2, ast.Call):
+                            from ..model import bind_call as _bind
+
+                            try:
+                                ct2 = repo.resolve_call(f, f.module, c2)
+                            except Exception:
+                                continue
+                            if ct2.kind == "repo":
+                                for g2 in ct2.funcs[:3]:
+                                    b2 = _bind(c2, g2, ct2.bound)
+                                    if b2.ok and any(is_name(a2, p_) and (g2.qname, q2) in sent for q2, a2 in b2.params.items()):
+                                        later = True
+                    # nested helpers (closures) that read the parameter and hand it on
+                    for sub in ast.walk(f.node):
+                        if isinstance(sub, (ast.FunctionDef, ast.Lambda)) and sub is not f.node and getattr(sub, "lineno", 0) > st.lineno:
+                            for c2 in ast.walk(sub):
+                                if isinstance(c2, ast.Call) and any(k.arg is not None and is_name(k.value, p_) for k in c2.keywords):
+                                    g_names = {q for q, _ in sent}
+                                    if any((q, k.arg) in sent for q in g_names for k in c2.keywords if is_name(k.value, p_)):
+                                        later = True
+                    if not later:
+                        continue
+
+                    # is the sentinel excluded here?
+                    def excludes(test, positive):
+                        while isinstance(test, ast.UnaryOp) and isinstance(test.op, ast.Not):
+                            test, positive = test.operand, not positive
+                        if isinstance(test, ast.BoolOp):
+                            conj = isinstance(test.op, ast.And) == positive
+                            return any(excludes(v, positive) for v in test.values) if conj else all(excludes(v, positive) for v in test.values)
+                        if isinstance(test, ast.Compare) and len(test.ops) == 1 and (is_name(test.left, p_) or is_name(test.comparators[0], p_)):
+                            other = test.comparators[0] if is_name(test.left, p_) else test.left
+                            if isinstance(other, ast.Constant) and isinstance(other.value, str):
+                                return isinstance(test.ops[0], ast.NotEq) == positive and {other.value} >= strings
+                            if isinstance(other, ast.Constant) and other.value is None:
+                                return isinstance(test.ops[0], ast.Is) and positive  # p is None: not the string
+                        if isinstance(test, ast.Call) and (call_name(test) or "") == "isinstance" and len(test.args) == 2 and is_name(test.args[0], p_):
+                            names = {x.id for x in ast.walk(test.args[1]) if isinstance(x, ast.Name)}
+                            return ("str" in names) != positive if "str" in names else (positive and bool(names & {"list", "tuple", "set", "int", "dict", "ndarray"}))
+                        return False
+
+                    safe = False
+                    cur = st
+                    while id(cur) in par and not safe:
+                        up = par[id(cur)]
+                        if isinstance(up, ast.If):
+                            if any(cur is b for b in up.body) and excludes(up.test, True):
+                                safe = True
+                            if any(cur is b for b in up.orelse) and excludes(up.test, False):
+                                safe = True
+                        for fld in ("body", "orelse"):
+                            blk = getattr(up, fld, None)
+                            if isinstance(blk, list) and any(cur is b for b in blk):
+                                i = next(k for k, b in enumerate(blk) if b is cur)
+                                for prev in blk[:i]:
+                                    # a guard clause that leaves, or that rebinds the parameter, when it is the sentinel
+                                    if isinstance(prev, ast.If) and excludes(prev.test, False) and prev.body and (isinstance(prev.body[-1], (ast.Return, ast.Raise, ast.Continue)) or any(isinstance(x, ast.Name) and x.id == p_ and isinstance(x.ctx, ast.Store) for b in prev.body for x in ast.walk(b))) and not prev.orelse:
+                                        safe = True
+                        if isinstance(up, (ast.FunctionDef, ast.AsyncFunctionDef)):
+                            break
+                        cur = up
+                    if not safe:
+                        ctx.finding("SENTINEL-INTACT", f, st, f"`{src(st)[:70]}` in {f.name}: `{p_}` may be the string sentinel {sorted(strings)} (it is compared with it here or in a routine it is handed to), and {call_name(st.value)}(\"{sorted(strings)[0]}\") is a collection of characters: the comparison with the sentinel then fails silently and the request it stands for is ignored", construct=f"{f.name}: {p_} = {call_name(st.value)}({p_}) with a string sentinel")
+    res.instance("SENTINEL-INTACT", f"{prop}: parameters with a string sentinel in the anchored modules", sample={"parameters": n})
